@@ -8,7 +8,7 @@
    notifications, sync peer) of the connect phase, then the handler. *)
 From stdpp Require Import list list_numbers.
 From Coq Require Import ZArith Lia ZifyBool.
-From Verif Require Import S2.Model C01.Spec C02.Spec C02.SpecH C02.Truncated S2.Basics S2.Invariant C01.Proofs C02.Proofs.
+From Verif Require Import S2.Model C01.Spec C02.Spec C02.SpecH C02.Truncated S2.Basics S2.Invariant S2.Faults C01.Proofs C02.Proofs.
 Open Scope Z_scope.
 
 (* ---------- reorg_check accepts every fully valid branch ---------- *)
@@ -592,4 +592,81 @@ Proof.
   destruct (step_spec P _ _ HUu HP s o HI Hwf Hlim) as [_ Hr]. cbn [StepRel o] in Hr.
   destruct (i_chain _ _ _ _ HI) as [tl Htl]. destruct Hwf as (HT & HUm & _).
   by eapply Trans_reorg_conditions_b.
+Qed.
+
+(* ---------- C02 over histories with store faults BEFORE the judged message ---------- *)
+Lemma reach_step_hyps_f P gfh ops o : wf_params P -> no_collision P (ops ++ [o]) -> wf_hist_f P (ops ++ [o]) ->
+  op_ok P o ->
+  let s := run P (init_state P gfh) ops in
+  let U := U_of P (ops ++ [o]) in let T := T_of (ops ++ [o]) in
+  universe P U /\ Inv P U T s /\ wf_op P U T o /\ zlen (chain s) + op_size o <= LIMIT.
+Proof.
+  intros HP HU [Hok Hsz] Hoo s U T. pose proof (no_collision_universe P _ HU) as HUu.
+  rewrite ops_size_app in Hsz. cbn [ops_size foldr] in Hsz. fold (ops_size ops) in Hsz.
+  pose proof (ops_size_nonneg ops) as Hnn.
+  assert (Hos : 0 <= op_size o) by (destruct o; cbn; try lia; apply zlen_nonneg).
+  destruct (run_Inv_f P U T HUu HP ops (init_state P gfh)) as [H1 H2].
+  - by apply init_Inv.
+  - apply Forall_forall. intros o' Ho'. apply op_ok_wf_f; [apply elem_of_app; by left|].
+    rewrite Forall_forall in Hok. apply Hok. apply elem_of_app. by left.
+  - change (chain (init_state P gfh)) with [genesis P]. unfold LIMIT. rewrite zlen_cons, zlen_nil. lia.
+  - split; [exact HUu|]. split; [exact H1|]. split.
+    + apply op_ok_wf; [apply elem_of_app; right; left|exact Hoo].
+    + change (chain (init_state P gfh)) with [genesis P] in H2. rewrite zlen_cons, zlen_nil in H2.
+      fold s in H2. unfold LIMIT. lia.
+Qed.
+
+Lemma only_legal_changes_f P gfh ops o :
+  wf_params P -> no_collision P (ops ++ [o]) -> wf_hist_f P (ops ++ [o]) -> op_ok P o ->
+  let s := run P (init_state P gfh) ops in
+  match o with
+  | OHeaders _ now msg =>
+      legal (classify P (chain s) (chain (step P s o)) msg) = true \/
+      reorg_truncated_atb P now (chain s) (chain (step P s o)) msg = true
+  | _ => chain (step P s o) = chain s
+  end.
+Proof.
+  intros HP HU HW Hoo s. destruct (reach_step_hyps_f P gfh ops o HP HU HW Hoo) as (HUu & HI & Hwf & Hlim). fold s in HI, Hlim.
+  pose proof (step_ClassRes P _ _ HUu HP s o HI Hwf Hlim) as H.
+  destruct o; try done. by apply legal_of_ClassRes.
+Qed.
+
+Lemma op_ok_headers_f P ops p now msg : wf_hist_f P (ops ++ [OHeaders p now msg]) -> op_ok P (OHeaders p now msg).
+Proof.
+  intros [Hok _]. rewrite Forall_forall in Hok. apply (Hok (OHeaders p now msg)). apply elem_of_app. right. left.
+Qed.
+
+Lemma reorg_conditions_f P gfh ops p now msg :
+  let o := OHeaders p now msg in
+  wf_params P -> no_collision P (ops ++ [o]) -> wf_hist_f P (ops ++ [o]) ->
+  let s := run P (init_state P gfh) ops in
+  reorg_conditions P now (chain s) (chain (step P s o)) msg.
+Proof.
+  intros o HP HU HW s.
+  destruct (reach_step_hyps_f P gfh ops o HP HU HW (op_ok_headers_f P ops p now msg HW)) as (HUu & HI & Hwf & Hlim). fold s in HI, Hlim.
+  by eapply step_reorg_conditions.
+Qed.
+
+Lemma valid_extension_adopted_f P gfh ops p now msg e :
+  let o := OHeaders p now msg in
+  wf_params P -> no_collision P (ops ++ [o]) -> wf_hist_f P (ops ++ [o]) ->
+  let s := run P (init_state P gfh) ops in
+  must_adopt P now (chain s) msg = Some e -> chain (step P s o) = e.
+Proof.
+  intros o HP HU HW s Hm.
+  destruct (reach_step_hyps_f P gfh ops o HP HU HW (op_ok_headers_f P ops p now msg HW)) as (HUu & HI & Hwf & Hlim). fold s in HI, Hlim.
+  by eapply step_adopt.
+Qed.
+
+Lemma work_monotone_f P gfh ops p now msg :
+  let o := OHeaders p now msg in
+  wf_params P -> no_collision P (ops ++ [o]) -> wf_hist_f P (ops ++ [o]) ->
+  let s := run P (init_state P gfh) ops in
+  work_of (chain (step P s o)) >= work_of (chain s) \/
+  classify P (chain s) (chain (step P s o)) msg = CutAtCheckpoint \/
+  reorg_truncated_atb P now (chain s) (chain (step P s o)) msg = true.
+Proof.
+  intros o HP HU HW s.
+  destruct (reach_step_hyps_f P gfh ops o HP HU HW (op_ok_headers_f P ops p now msg HW)) as (HUu & HI & Hwf & Hlim). fold s in HI, Hlim.
+  pose proof (step_ClassRes P _ _ HUu HP s o HI Hwf Hlim) as H. by apply work_of_ClassRes.
 Qed.
